@@ -55,10 +55,45 @@ Proof.
     rewrite E. cbn [bind]. apply IH, H.
 Qed.
 
-(* the configuration key "_" (unescaped to the empty selector) is accepted; on an object event Do ties
-   the root into itself *)
+(* the model function on an empty path and an object root: Err (the root tied into itself) *)
 Theorem rename_empty_path_refuted : exists preserve ops root, rename_do preserve ops root = Err 1.
 Proof. exists true, [([], [120%N])], (JObj [([97%N], JNum [49%N])]). vm_compute. reflexivity. Qed.
+
+(* Start (after fix 4232b91): a key that is empty after the unescaping is no operation, so every
+   operation of an accepted configuration has a non-empty path (cfg.ParseFieldSelector of a non-empty
+   selector is a non-empty path: hypothesis on the oracle, checked by the harness on every case) *)
+Lemma unescape_map_in cfg k' v :
+  In (k', v) (unescape_map cfg) <-> exists k, In (k, v) cfg /\ k' = unescape_key k /\ k' <> [].
+Proof.
+  induction cfg as [|[k0 v0] r IH]; cbn [unescape_map].
+  - split; [contradiction|]. intros (k & [] & _).
+  - destruct (unescape_key k0) as [|c u] eqn:E.
+    + rewrite IH. split.
+      * intros (k & Hi & He & Hn). exists k. split; [right; exact Hi|]. split; assumption.
+      * intros (k & [Hi|Hi] & He & Hn).
+        -- injection Hi as Hk Hv. subst k v k'. rewrite E in Hn. contradiction.
+        -- exists k. repeat split; assumption.
+    + cbn [In]. rewrite IH. split.
+      * intros [Hh|(k & Hi & He & Hn)].
+        -- injection Hh as <- <-. exists k0. split; [left; reflexivity|]. split; [symmetry; exact E|discriminate].
+        -- exists k. split; [right; exact Hi|]. split; assumption.
+      * intros (k & [Hi|Hi] & He & Hn).
+        -- injection Hi as Hk Hv. subst k v k'. left. rewrite E. reflexivity.
+        -- right. exists k. repeat split; assumption.
+Qed.
+
+Theorem rename_cfg_paths_nonempty sel cfg : (forall k, k <> [] -> sel k <> []) ->
+  paths_nonempty (rename_ops sel cfg) = true.
+Proof.
+  intros Hs. unfold paths_nonempty, rename_ops. apply forallb_forall. intros [path name] Hi.
+  apply in_map_iff in Hi. destruct Hi as ([k' v] & E & Hi). cbn [fst snd] in E. injection E as <- <-.
+  apply unescape_map_in in Hi. destruct Hi as (k & _ & _ & Hn). cbn [fst].
+  specialize (Hs k' Hn). destruct (sel k'); [contradiction|reflexivity].
+Qed.
+
+Theorem rename_cfg_total sel : (forall k, k <> [] -> sel k <> []) -> forall preserve cfg root,
+  exists r, rename_cfg_do sel preserve cfg root = Ok (APass, r).
+Proof. intros Hs preserve cfg root. apply rename_total, rename_cfg_paths_nonempty, Hs. Qed.
 
 Lemma rename_step_wf preserve root pn r : wf_json root = true -> rename_step preserve root pn = Ok r -> wf_json r = true.
 Proof.
